@@ -11,6 +11,7 @@ the calls that failed according to the trace.
 import errno
 import json
 import os
+import random
 import re
 import shutil
 import time
@@ -24,7 +25,7 @@ TAG_SWARM = "C18/swarm"
 
 TIERS = {
     "quick": dict(enum_scenarios=16, stdio_sites=6, swarm=400, real_lli=12, crash=120),
-    "thorough": dict(enum_scenarios=120, stdio_sites=40, swarm=80000, real_lli=300, crash=8000, real_clang=150, render=1800, verbose_large=300, overlap=600, rerun=1500, stale_binary=300, same_dir_overlap=600),
+    "thorough": dict(enum_scenarios=120, stdio_sites=40, swarm=80000, real_lli=300, crash=8000, real_clang=150, render=1800, verbose_large=300, blank_module=240, overlap=600, rerun=1500, stale_binary=300, same_dir_overlap=600),
 }
 
 ESC = b"\x1b"
@@ -114,6 +115,17 @@ def make_inputs(rng, kind, force=None):
             bad = f.read()
         prog = pngen.generate(rng, n_funcs=2, with_main=False, prefix="q")
         return {"main.pn": bad, "helper.pn": prog.single_file().encode()}, rng.choice([["main.pn", "helper.pn"], ["helper.pn", "main.pn"]]), False, True, ["main.pn", "helper.pn"]
+    if kind == "valid_multi_blank":
+        # a module without a single declaration among the inputs (comments, blank lines): it is a
+        # module like any other - accepted, and it gets its artefact
+        prog = pngen.generate(rng, n_funcs=rng.randint(3, 6))
+        sp = pngen.random_split(prog, rng, k=rng.choice([2, 3]))
+        files = {k: v.encode() for k, v in sp.file_map(rng).items()}
+        names = list(sp.files)
+        blank = rng.choice(["notes.pn", "zz_todo.pn", "doc/readme.pn"])
+        files[blank] = [b"// nothing here yet\n", b"\n\n", b"// TODO\n// more to come\n\n", b" \t\n"][(force or {}).get("blank_text", 0) % 4]
+        names.insert(rng.randrange(len(names) + 1), blank)
+        return files, names, True, True, names
     if kind == "many_errors":
         # a failing compilation with a chosen number of diagnostics (one undefined name per
         # function): whatever their number, the exit status is not 0
@@ -1185,6 +1197,22 @@ def _error_count_job(args):
     return {"violations": [{"class": c, "detail": d, "scenario": sc_json(sc), "plan": [], "fault": "none"} for c, d in v]}
 
 
+def _blank_module_job(args):
+    """Valid multi-file programs with one more module that has no declaration
+    at all, at any place on the command line: success, an artefact for every
+    module (the blank one too), the backend runs."""
+    seed, idx = args
+    rng = rng_for(seed, "C18/blank_module", idx)
+    sub = ["emit", "run", "build"][idx % 3]
+    sc = make_scenario(rng, sub, "valid_multi_blank", {"blank_text": idx // 3, "silent": False, "verbose": False, "cell": (0, 0, 0), "config": "none",
+                                                       "out_dir": "fresh", "wasm": False, "script": {"read": "all", "exit": 0}, "order": "parent_first"})
+    sc["name"] = "blank_module%d:%s" % (idx, sub)
+    wd = os.path.join(work_root(), "C18", "bm%d" % idx)
+    obs = run_census(sc, wd)
+    v, calls, _ = judge(sc, obs, obs, "blank_module", None)
+    return {"violations": [{"class": c, "detail": d, "scenario": sc_json(sc), "plan": [], "fault": "none"} for c, d in v]}
+
+
 def _script_grid_job(args):
     """Every backend behaviour x --silent x subcommand x forced order."""
     seed, idx = args
@@ -1571,6 +1599,11 @@ def run(tier, seed):
         runs += 1
         error_count_cells += 1
         raw.extend(res["violations"])
+    blank_cells = 0
+    for res in parallel_map(_blank_module_job, [(seed, i) for i in range(cfg.get("blank_module", 24))]):
+        runs += 1
+        blank_cells += 1
+        raw.extend(res["violations"])
     verbose_large = 0
     for res in parallel_map(_verbose_large_job, [(seed, i) for i in range(cfg.get("verbose_large", 36))]):
         runs += 2
@@ -1650,6 +1683,7 @@ def run(tier, seed):
         "real_filesystem_variants": fs_cells,
         "failing_compilations_rendered_colourless_ascii": render_cells,
         "verbose_runs_of_large_programs": verbose_large,
+        "programs_with_a_module_without_declarations": blank_cells,
         "failing_compilations_by_number_of_diagnostics": {"cells": error_count_cells, "counts": ERROR_COUNTS},
         "swarm_runs": swarm_done,
         "crash_restart_runs": crash_done,
